@@ -39,6 +39,7 @@ type generator struct {
 	routes []*mgmt.ControlArgs // rib/register arguments
 	hops   []*mgmt.ControlArgs // fib/add-nexthop arguments
 	strats []enc.Name          // strategy-choice/set prefixes
+	faces  []faceSpec          // the harness faces of the current history (face ids 2..)
 }
 
 func (g *generator) pick(xs ...string) string { return xs[g.r.Intn(len(xs))] }
@@ -347,6 +348,49 @@ func (g *generator) args(module, verb string, nfaces int) (*mgmt.ControlArgs, st
 			a.Mask = g.optU64(1)
 		}
 	case "faces/update":
+		if g.chance(0.4) && len(g.faces) > 0 {
+			// ONE update that combines several fields on an existing UDP/TCP face whose persistency can change: all but one field
+			// valid, so that a refusal must leave every attribute of the face untouched
+			var cands []int
+			for i, f := range g.faces {
+				if f.ndnlp && (strings.HasPrefix(f.remote, "udp") || strings.HasPrefix(f.remote, "tcp")) {
+					cands = append(cands, i)
+				}
+			}
+			if len(cands) > 0 {
+				i := cands[g.r.Intn(len(cands))]
+				f := g.faces[i]
+				a.FaceId = utils.IdPtr(uint64(2 + i))
+				other := uint64(face.PersistencyPermanent)
+				if f.persistency == face.PersistencyPermanent {
+					other = uint64(face.PersistencyPersistent)
+				}
+				a.FacePersistency = utils.IdPtr(other) // acceptable for udp and tcp, differs from the face's initial one
+				a.Flags, a.Mask = utils.IdPtr(uint64(g.r.Intn(8))), utils.IdPtr(uint64(1+g.r.Intn(7)))
+				a.BaseCongestionMarkInterval = utils.IdPtr(uint64(1 + g.r.Intn(1000)))
+				a.DefaultCongestionThreshold = utils.IdPtr(uint64(1 + g.r.Intn(1000)))
+				a.Mtu = utils.IdPtr(uint64(64 + g.r.Intn(3000)))
+				switch g.r.Intn(5) {
+				case 0, 1:
+					a.Mtu = utils.IdPtr(uint64(g.r.Intn(64)))
+					label = "combined-update,bad-mtu"
+				case 2:
+					a.Mask = nil
+					label = "combined-update,flags-without-mask"
+				case 3:
+					if strings.HasPrefix(f.remote, "udp") {
+						a.FacePersistency = utils.IdPtr(uint64(face.PersistencyOnDemand))
+						label = "combined-update,bad-persistency"
+					} else {
+						a.Flags = nil
+						label = "combined-update,mask-without-flags"
+					}
+				default:
+					label = "combined-update,all-valid"
+				}
+				break
+			}
+		}
 		withFace(0.75)
 		if g.chance(0.5) {
 			a.Mtu = utils.IdPtr(mtuPool[g.r.Intn(len(mtuPool))])
@@ -527,6 +571,7 @@ func (g *generator) genCase() *caseSpec {
 	g.routes, g.hops, g.strats = nil, nil, nil
 	cs := &caseSpec{localhop: g.chance(0.4)}
 	cs.faces = append([]faceSpec{}, facePool[g.r.Intn(len(facePool))]...)
+	g.faces = cs.faces
 	n := 6 + g.r.Intn(20)
 	readBack := func(m, v string) opCmd {
 		return opCmd{inFace: 2, name: enc.Name{gen("localhost"), gen("nfd"), gen(m), gen(v)}, label: m + "/" + v + ",after-rib-change"}
@@ -534,6 +579,9 @@ func (g *generator) genCase() *caseSpec {
 	for i := 0; i < n; i++ {
 		c := g.command(len(cs.faces))
 		cs.cmds = append(cs.cmds, c)
+		if strings.Contains(c.label, "combined-update") {
+			cs.cmds = append(cs.cmds, readBack("faces", "list"))
+		}
 		if strings.Contains(c.label, "rib-update") || (strings.HasPrefix(c.label, "rib/") && g.chance(0.15)) {
 			cs.cmds = append(cs.cmds, readBack("fib", "list"))
 			if g.chance(0.5) {
